@@ -616,7 +616,11 @@ def check_C18_explore_jobs(tier):
             + stack_suite(tier, c, extra="--tries 1") + iter_suite(tier, c[:2]) + arena_suite(tier, c[:1])
             + growfail_jobs(tier, c[:1] if tier == "quick" else c, twin=0)
             # the figures of a moved / swapped object describe the memory it took over
-            + pool_suite(tier, c[:1], extra="--moves 2") + stack_suite(tier, c[:1], extra="--moves 2") + coll_suite(tier, c[:1], extra="--moves 2"))
+            + pool_suite(tier, c[:1], extra="--moves 2") + stack_suite(tier, c[:1], extra="--moves 2") + coll_suite(tier, c[:1], extra="--moves 2")
+            # the composable interface moves the counters too (a failed try_ may only move the rest of the block into the pool)
+            + coll_suite(tier, c[:1], extra="--tries 1", fams=("compose",))
+            + [J("h_coll", cfg, "--type node --buckets log2 --src fixed --fam compose --tryrel 1 --maxns 64 --bs 528 --sizes 64,32 --L 5 --B 1 --arena 2048",
+                 name=f"coll/node/log2/fixed[{cfg}] compose, rest of the block smaller than a node", need=("try_returned_null",)) for cfg in c[:2]])
 
 
 def check_C16(prop, tier, only):
@@ -639,6 +643,8 @@ def check_C16(prop, tier, only):
     jobs += pool_suite("quick", c, extra="--tries 1") + coll_suite("quick", c) + stack_suite("quick", c) + iter_suite("quick", c[:1]) + arena_suite("quick", c[-1:])
     # valid histories with moves / swaps: blocks (and cached blocks) must go back to the source they came from, a LIFO-only source reports anything else
     jobs += arena_suite("quick", c[-1:], extra="--moves 2") + stack_suite("quick", c[-1:], extra="--moves 2")
+    # ... and after a failed acquisition (upstream / page commit failure armed at every call position) valid releases are still accepted
+    jobs += arena_suite("quick", c[-1:], extra="--faults 1")
     enum_jobs = [J("h_badblock", cfg, "", name=f"badblock[{cfg}]") for cfg in (["rwd", "dbg", "chk"] + ([] if q else ["rel"]))]
     # reports go to the invalid-pointer handler that is installed: concurrent registrations must not lose a handler
     j = J("h_tsafe_ll", "dbg", "--ll", name="handler-registries-threads[dbg]")
